@@ -1,19 +1,15 @@
 import PoseVerif.Proofs.Legacy
+import PoseVerif.Proofs.LegacyV00
 import PoseVerif.Props.C01
 import PoseVerif.Props.C03
 /-!
 # C04 — files in the older v0.0 and v0.1 layouts decode to what their spec describes
 
-`specFileV01` is the reference encoder written from `docs/specs/v0.1.md`. The v0.0 decoder is part of the model
-(`rdBodyV00`, compared with the implementation on reference-encoded files by the correspondence check); the theorem about it here is
-that window arguments do not reach it, and that it is reached exactly for version ±0. A reference-decode theorem for v0.0 is not proved (partial).
+`specFileV01` / `specFileV00` are the reference encoders written from `docs/specs/v0.1.md` / `docs/specs/v0.0.md` (their bytes are compared with an
+independent Python encoder by the correspondence check). Both decode theorems are stated for every header, every number of frames / people / points.
 -/
 namespace PoseVerif.Props.C04
 open PoseVerif
-
-/-- the file `docs/specs/v0.1.md` describes: header with the 0.1 version pattern; `u16` fps, `u16` frame-count field, `u16` people; blocks -/
-def specFileV01 (p : Pose) (fps framesField : Nat) : Bytes :=
-  specHeader p.header v01bits ++ specBodyV01 p.body fps framesField
 
 /-- what a v0.1 read returns for that file: the header as stored (version 0.1), integer fps, mask from confidence -/
 def decodedV01 (p : Pose) (fps : Nat) : Pose :=
@@ -73,6 +69,74 @@ theorem v01_window_eq_slice (fps : Fps) (frames people points dims : Nat) (s e :
 theorem legacy_stream_eq_bytes (file : Bytes) (cache : Option CacheEntry) (w : Window) (p : Pose) (c : Option CacheEntry)
     (h : readBytes file cache w = some (p, c)) : ∃ s, readStream file cache w = some ((p, c), s) :=
   C03.stream_eq_bytes file cache w p c h
+
+/-! ### v0.0 -/
+
+/-- **Every reference-encoded v0.0 file decodes to exactly the values stored in it**: per frame the FIRST listed person (whatever its id), all-zero — hence
+    missing — points for a frame that lists nobody, coordinates = all letters of the format but the last, confidence = the last. -/
+theorem readV00_enc (h : Header) (hr : h.Rep) (dims fps : Nat) (frames : List (List PersonV00)) (hfps : fps < 65536) (hnf : frames.length < 65536) (hf1 : frames ≠ [])
+    (hd1 : 1 ≤ dims) (hne : h.comps ≠ []) (hfmt : ∀ c ∈ h.comps, c.format.length = dims + 1)
+    (hpeople : ∀ ps ∈ frames, ps.length < 65536) (hfit : ∀ ps ∈ frames, ∀ p ∈ ps, p.Fits h.comps) :
+    readFull (specFileV00 h fps frames) = some ⟨{ h with version := 0 }, decodedBodyV00 h dims fps frames⟩ := by
+  have henc : encHeaderAny? { h with version := 0 } = some (specHeader h 0) := encHeaderAny?_of_rep _ (Header.Rep_version 0 hr)
+  have hh := Enc_rdHeaderRaw _ _ (specBodyV00 fps frames) henc
+  have hb := rdBodyV00_spec { h with version := 0 } dims fps frames hfps hnf hf1 hd1 hne hfmt hpeople hfit
+  have hbody : runBR (rdBody { h with version := 0 } {}) (specFileV00 h fps frames) (specHeader h 0).length
+      = some (decodedBodyV00 h dims fps frames, (specFileV00 h fps frames).length) := by
+    simp only [rdBody, versionClass_zero]
+    rw [runBR_drop _ (Rel_rdBodyV00 _) _ _ (by simp [specFileV00])]
+    simp only [specFileV00, List.drop_left, hb, Option.map_some, List.length_append]
+    rfl
+  have := rdPose_none_of (w := {}) hh hbody
+  simp only [specFileV00] at this ⊢
+  simp [readFull, this]
+
+theorem decodedBodyV00_fits (h : Header) (dims fps : Nat) (frames : List (List PersonV00)) (hd1 : 1 ≤ dims) (hne : h.comps ≠ [])
+    (hfmt : ∀ c ∈ h.comps, c.format.length = dims + 1) (hfit : ∀ ps ∈ frames, ∀ p ∈ ps, p.Fits h.comps) :
+    (decodedBodyV00 h dims fps frames).Fits { h with version := 0 } := by
+  have hw : ∀ c ∈ h.comps, c.format.length - 1 = dims := fun c hc => by rw [hfmt c hc]; omega
+  refine ⟨rfl, numDims?_of_uniform { h with version := 0 } dims hne hfmt, hd1, ?_, ?_⟩
+  · simp only [decodedBodyV00, List.map_map]
+    rw [flatten_length_of_const (h.totalPoints * dims)]
+    · simp [Nat.mul_assoc]
+    · intro x hx
+      obtain ⟨ps, hps, rfl⟩ := List.mem_map.mp hx
+      exact (decodeFrameV00_lengths h.comps dims ps (hfit ps hps) hw).1
+  · simp only [decodedBodyV00, List.map_map]
+    rw [flatten_length_of_const h.totalPoints]
+    · simp
+    · intro x hx
+      obtain ⟨ps, hps, rfl⟩ := List.mem_map.mp hx
+      exact (decodeFrameV00_lengths h.comps dims ps (hfit ps hps) hw).2
+
+/-- …and the decoded v0.0 pose is written as a v0.2 file that reads back to the same header fields, coordinates and confidences (fps as the same number in
+    float32, version 0.2; the missing pattern is then v0.2's `confidence == 0`, which differs from v0.0's `confidence ≤ 0` only for negative / NaN confidences). -/
+theorem legacy_rewrite_v00 (h : Header) (hr : h.Rep) (dims fps : Nat) (frames : List (List PersonV00)) (hfps : fps < 65536) (hnf : frames.length < 65536)
+    (hd1 : 1 ≤ dims) (hne : h.comps ≠ []) (hfmt : ∀ c ∈ h.comps, c.format.length = dims + 1) (hfit : ∀ ps ∈ frames, ∀ p ∈ ps, p.Fits h.comps) :
+    ∃ b, (Pose.mk { h with version := 0 } (decodedBodyV00 h dims fps frames)).write? = some b ∧
+      readFull b = some ((Pose.mk { h with version := 0 } (decodedBodyV00 h dims fps frames)).canon (F32.ofSmallNat fps)) := by
+  have hfitB := decodedBodyV00_fits h dims fps frames hd1 hne hfmt hfit
+  have hw : (decodedBodyV00 h dims fps frames).fps.toF32? = some (F32.ofSmallNat fps) := by
+    simp only [decodedBodyV00, Fps.toF32?]; rw [if_pos (by omega)]
+  have hrep : (Pose.mk { h with version := 0 } (decodedBodyV00 h dims fps frames)).Rep :=
+    ⟨hr.width, hr.height, hr.depth, hr.ncomps, hr.comps, ⟨_, hw⟩, by simp only [decodedBodyV00]; omega, by simp [decodedBodyV00]⟩
+  obtain ⟨b, w, hb, hw', hread⟩ := C01.read_write _ hfitB hrep
+  rw [hw] at hw'; cases hw'
+  exact ⟨b, hb, hread⟩
+
+/-! non-vacuity: two frames, the first lists two people (ids 7 and 3 — the first LISTED one is kept), the second nobody -/
+def sampleHeaderV00 : Header :=
+  { version := 0, width := 1, height := 2, depth := 0, comps := [{ name := "c", format := "XYC", points := ["p", "q"], limbs := [], colors := [] }] }
+def sampleFramesV00 : List (List PersonV00) :=
+  [[⟨7, [[1, 2, 0x3F800000, 3, 4, 0]]⟩, ⟨3, [[9, 9, 9, 9, 9, 9]]⟩], []]
+instance : DecidableEq PersonV00 := fun a b => by
+  cases a; cases b; simp only [PersonV00.mk.injEq]; exact inferInstance
+example : (readFull (specFileV00 sampleHeaderV00 30 sampleFramesV00)).map (fun q => (q.body.frames, q.body.people, q.body.fps, q.body.missing)) =
+    some (2, 1, Fps.int 30, [false, true, true, true]) := by decide +kernel
+example : (readFull (specFileV00 sampleHeaderV00 30 sampleFramesV00)).map (fun q => (q.body.data, q.body.conf)) =
+    some ([1, 2, 3, 4, 0, 0, 0, 0], [0x3F800000, 0, 0, 0]) := by decide +kernel
+instance (comps : List Comp) (p : PersonV00) : Decidable (p.Fits comps) := by unfold PersonV00.Fits; exact inferInstance
+example : ∀ ps ∈ sampleFramesV00, ∀ p ∈ ps, p.Fits sampleHeaderV00.comps := by decide
 
 /-! non-vacuity: a 3-frame v0.1 file whose frame-count field says 7 -/
 def sampleV01 : Pose :=
